@@ -493,7 +493,9 @@ class BzrGitMapping(foreign.VcsMapping):
         except AttributeError:
             extra = commit.extra
         if "git-extra" in rev.properties:
-            for l in rev.properties["git-extra"].splitlines():
+            # import_commit terminates every line with "\n"; str.splitlines()
+            # would also split at "\r", "\x0b", "\x0c", "\x1c"-"\x1e", U+0085, ...
+            for l in rev.properties["git-extra"].removesuffix("\n").split("\n"):
                 (k, v) = l.split(" ", 1)
                 extra.append(
                     (
